@@ -16,6 +16,10 @@ pub struct Known {
     pub commit: Option<String>,
     #[serde(default)]
     pub witness: Option<J>,
+    /// other properties whose generators are steered away from this root cause while it is open
+    /// (cases are counted as excluded there; the KNOWN-FINDING line is printed by `property` only)
+    #[serde(default)]
+    pub also_affects: Vec<String>,
 }
 
 #[derive(Clone, Debug, Default, Deserialize)]
@@ -36,7 +40,7 @@ impl KnownSet {
         }
     }
     pub fn open(&self, prop: &str) -> Vec<&Known> {
-        self.findings.iter().filter(|k| k.property == prop && k.status == "open").collect()
+        self.findings.iter().filter(|k| (k.property == prop || k.also_affects.iter().any(|p| p == prop)) && k.status == "open").collect()
     }
     pub fn all(&self, prop: &str) -> Vec<Known> {
         self.findings.iter().filter(|k| k.property == prop).cloned().collect()
